@@ -447,16 +447,13 @@ impl<R: Read, TSpec> TagIterator<R, TSpec>
 
         if let Some(next_read) = self.read_tag_checked() {
             if let Ok(next_tag) = &next_read {
-                while matches!(self.tag_stack.last(), Some(open_tag) if open_tag.size == Unknown) {
-                    let open_tag = self.tag_stack.last().unwrap();
-                    let previous_tag_ended = open_tag.is_ended_by(next_tag.tag.get_id());
-        
-                    if previous_tag_ended {
-                        let t = self.tag_stack.pop().unwrap();
-                        self.emission_queue.push_back(Ok((t.tag, t.tag_start)));
-                    } else {
-                        break;
-                    }
+                // An unknown sized master is ended by this tag directly, or because this tag ends an unknown sized master enclosing it.
+                // Find the outermost master in the trailing run of unknown sized masters that this tag ends and close everything from there.
+                let next_id = next_tag.tag.get_id();
+                let unknown_run_start = self.tag_stack.iter().rposition(|open_tag| open_tag.size != Unknown).map_or(0, |index| index + 1);
+                let ended_index = (unknown_run_start..self.tag_stack.len()).find(|&index| self.tag_stack[index].is_ended_by(next_id));
+                if let Some(index) = ended_index {
+                    self.emission_queue.extend(self.tag_stack.drain(index..).map(|t| Ok((t.tag, t.tag_start))).rev());
                 }
 
                 if let Some(Master::Start) = next_tag.tag.as_master() {
